@@ -623,13 +623,16 @@ fn so3_bounds_cases(o: &mut Out, m: i64) {
         }
     }
     // enforce / satisfies for cones about the identity and about an axis element
-    for (cn, centre) in [("id", SO3State::identity()), ("z60", q_axis(2, m / 6, m))] {
+    // (general-axis centres too: what holds about a coordinate axis need not hold about a tilted one)
+    let gen = SO3State::new(1.0, 2.0, 3.0, 4.0).normalise().unwrap();
+    let tilt = SO3State::new(0.0, 0.5, 0.5, std::f64::consts::FRAC_1_SQRT_2);
+    for (cn, centre) in [("id", SO3State::identity()), ("z60", q_axis(2, m / 6, m)), ("gen", gen), ("tilt", tilt)] {
         for kmax in [0, 1, 2, m / 4, m / 2] {
             let maxa = 2.0 * PI * kmax as f64 / m as f64;
             let space = SO3StateSpace::new(Some((centre.clone(), maxa))).unwrap();
             for ax in 0..3usize {
                 for j in 0..(2 * m) {
-                    for (rn, scale) in [("unit", 1.0), ("scaled3", 3.0), ("tiny", 1e-5)] {
+                    for (rn, scale) in [("unit", 1.0), ("scaled3", 3.0), ("tiny", 1e-5), ("near-unit", 1.0 - 3e-7)] {
                         let mut orig = q_axis(ax, j, m);
                         orig.x *= scale;
                         orig.y *= scale;
@@ -646,7 +649,7 @@ fn so3_bounds_cases(o: &mut Out, m: i64) {
                         let sat0 = scale == 1.0 && space.satisfies_bounds(&orig);
                         o.ev(json!({"ev": "sp", "sp": "so3", "op": "enforce", "centre": cn, "kmax": kmax, "M": m, "ax": ax, "j": j, "rep": rn,
                                     "panic": r.is_err(), "sat1": sat1, "sat1tol": dev <= maxa + TOL3,
-                                    "idem": space.distance(&e1, &e2) <= 4.0 * TOL3, "unitq": (nrm - 1.0).abs() <= TOL3,
+                                    "idem": space.distance(&e1, &e2) <= 4.0 * TOL3, "unitq": (nrm - 1.0).abs() <= 1e-9,
                                     "sat0": sat0, "unchanged": space.distance(&e1, &orig) <= TOL3 || scale != 1.0}));
                     }
                 }
@@ -661,7 +664,7 @@ fn so3_bounds_cases(o: &mut Out, m: i64) {
             // sampling in the cone
             let mut rng = StdRng::seed_from_u64(13);
             let mut allin = true;
-            for _ in 0..30 {
+            for _ in 0..(if kmax == 0 { 0 } else { 120 }) {
                 if let Ok(s) = space.sample_uniform(&mut rng) {
                     allin &= space.satisfies_bounds(&s);
                 }
@@ -670,7 +673,10 @@ fn so3_bounds_cases(o: &mut Out, m: i64) {
         }
     }
     // normalise: unit parallel to the input, or ZeroMagnitude
-    for v in [[0.0, 0.0, 0.0, 0.0], [1e-10, 0.0, 0.0, 0.0], [1e-8, 0.0, 0.0, 0.0], [3.0, 0.0, 4.0, 0.0], [1e150, 1e150, 0.0, 0.0], [-2.0, 1.0, 0.5, -7.0]] {
+    for v in [[0.0, 0.0, 0.0, 0.0], [1e-10, 0.0, 0.0, 0.0], [1e-8, 0.0, 0.0, 0.0], [3.0, 0.0, 4.0, 0.0], [1e150, 1e150, 0.0, 0.0], [-2.0, 1.0, 0.5, -7.0],
+              // nearly, but not, unit: the result must still be unit to rounding
+              [0.0, 0.0, 0.6, 0.8000003], [0.182574, 0.365148, 0.547723, 0.730297], [0.6 * (1.0 + 1e-5), 0.0, 0.8 * (1.0 + 1e-5), 0.0],
+              [0.5 * (1.0 - 1e-8), 0.5 * (1.0 - 1e-8), 0.5 * (1.0 - 1e-8), 0.5 * (1.0 - 1e-8)], [0.0, 1.0 + 1e-12, 0.0, 0.0]] {
         let mut s = SO3State::new(v[0], v[1], v[2], v[3]);
         let n0 = (v[0] * v[0] + v[1] * v[1] + v[2] * v[2] + v[3] * v[3]).sqrt();
         match s.normalise() {
